@@ -250,6 +250,7 @@ func cmdCheck(args []string) int {
 	repo := fs.String("repo", "/repo", "repository root")
 	verif := fs.String("verif", "/verif", "verification root")
 	keep := fs.Bool("keep", false, "keep all SMT files")
+	discard := fs.Bool("discard-queries", false, "remove the SMT query directory even when obligations failed (used by the selftest corpus)")
 	verbose := fs.Bool("v", false, "verbose")
 	noEvidence := fs.Bool("no-evidence", false, "do not write the evidence file")
 	writeBaseline := fs.Bool("write-baseline", false, "maintenance: record the generated obligation names of this property in baseline_obligations.json")
@@ -384,7 +385,7 @@ func cmdCheck(args []string) int {
 		_ = allLemmaAx
 		return out
 	}
-	opt := solveOpts{timeout: 20, seed: seed, outDir: filepath.Join(*verif, "out", ps.ID+"-"+*tier),
+	opt := solveOpts{timeout: 20, seed: seed, outDir: filepath.Join(*verif, "out", fmt.Sprintf("%s-%s-%d", ps.ID, *tier, os.Getpid())),
 		cacheDir: filepath.Join(*verif, ".cache"), useCache: true, workers: 5, replay: ps.Replay, property: ps.ID}
 	if *tier == "thorough" {
 		opt.timeout = 60
@@ -392,6 +393,7 @@ func cmdCheck(args []string) int {
 		opt.all = true
 		opt.workers = 5
 	}
+	pruneOutDirs(filepath.Join(*verif, "out"))
 	os.RemoveAll(opt.outDir)
 	e.solveAll(selected, axiomsFor, opt)
 	// verdicts
@@ -446,7 +448,7 @@ func cmdCheck(args []string) int {
 			path = filepath.Join(replayDir, hashText(name)[:24]+".json")
 		}
 		data, _ := json.MarshalIndent(payload, "", " ")
-		os.WriteFile(path, data, 0o644)
+		writeFileAtomic(path, data)
 		return path
 	}
 	for _, o := range res.failed {
@@ -520,13 +522,13 @@ func cmdCheck(args []string) int {
 		names := sortedStrings(fam)
 		base[ps.ID] = names
 		data, _ := json.MarshalIndent(base, "", " ")
-		os.WriteFile(filepath.Join(*verif, "baseline_obligations.json"), data, 0o644)
+		writeFileAtomic(filepath.Join(*verif, "baseline_obligations.json"), data)
 	}
 	wall := time.Since(start).Seconds()
 	if !*noEvidence {
 		writeEvidence(e, *verif, ps, *tier, seed, selected, discharged, bySolver, funcsUnderContract, res, violations, knownHit, wall)
 	}
-	if !*keep && len(res.failed) == 0 {
+	if (!*keep && len(res.failed) == 0) || *discard {
 		os.RemoveAll(opt.outDir)
 	}
 	for _, k := range knownHit {
@@ -690,7 +692,7 @@ func writeEvidence(e *Engine, verif string, ps *PropSpec, tier string, seed int,
 	}
 	os.MkdirAll(filepath.Join(verif, "evidence"), 0o755)
 	data, _ := json.MarshalIndent(ev, "", " ")
-	os.WriteFile(filepath.Join(verif, "evidence", ps.ID+".json"), data, 0o644)
+	writeFileAtomic(filepath.Join(verif, "evidence", ps.ID+".json"), data)
 }
 
 func cmdDump(args []string) int {
@@ -782,7 +784,8 @@ func cmdDump(args []string) int {
 		return 1
 	}
 	if *solve {
-		e.solveAll(e.obls, axiomsFor, solveOpts{timeout: *timeout, outDir: filepath.Join(*verif, "out", "dump"), workers: 5})
+		e.solveAll(e.obls, axiomsFor, solveOpts{timeout: *timeout, outDir: filepath.Join(*verif, "out", fmt.Sprintf("dump-%d", os.Getpid())), workers: 5})
+		defer os.RemoveAll(filepath.Join(*verif, "out", fmt.Sprintf("dump-%d", os.Getpid())))
 	}
 	bad := 0
 	for _, o := range e.obls {
@@ -819,4 +822,28 @@ func (e *Engine) axiomsOnly(kind string) []axiomTerm {
 		}
 	}
 	return out
+}
+
+// writeFileAtomic writes through a temporary file and a rename, so that checks
+// running concurrently (same or different properties) never observe a partial file.
+func writeFileAtomic(path string, data []byte) error {
+	tmp := fmt.Sprintf("%s.%d.tmp", path, os.Getpid())
+	if err := os.WriteFile(tmp, data, 0o644); err != nil {
+		return err
+	}
+	return os.Rename(tmp, path)
+}
+
+// pruneOutDirs removes query directories left behind by failed runs older than a day
+// (each run writes into its own directory so concurrent runs cannot disturb each other).
+func pruneOutDirs(root string) {
+	ents, err := os.ReadDir(root)
+	if err != nil {
+		return
+	}
+	for _, en := range ents {
+		if info, err := en.Info(); err == nil && en.IsDir() && time.Since(info.ModTime()) > 24*time.Hour {
+			os.RemoveAll(filepath.Join(root, en.Name()))
+		}
+	}
 }
